@@ -927,9 +927,14 @@ class C04(Prop):
                     break
 
     def _report(self, failures: dict, res: Result, do_shrink: bool = True):
+        shrunk = 0
         for sig, lst in failures.items():
             h, detail = min(lst, key=lambda x: len(x[0]["ops"]))
-            small = shrink(h, sig) if do_shrink else {k: v for k, v in h.items() if k != "cell"}
+            if do_shrink and shrunk < 8:
+                small = shrink(h, sig)
+                shrunk += 1
+            else:
+                small = {k: v for k, v in h.items() if k != "cell"}
             try:
                 _, _, tr = run_history(small)
                 det = [d for (s, d, _) in oracle(small, tr) if s == sig]
